@@ -2203,6 +2203,22 @@ impl Prop for P {
                     // the deserialisers of structured models pick the model variant (context
                     // order, configuration preset, open mode) from `aux`: the +-1 sweep runs for
                     // every variant, not only the first
+                    // length-prefixed / counted formats: a maximised 2/4/8-byte window in the first
+                    // 12 bytes (where the length or count lives) followed by 70 KiB of trailing data,
+                    // so that "the input cannot be that long" checks which only look at what has
+                    // arrived so far, or at one 64 KiB chunk, are satisfied
+                    let counted = cell.starts_with("data_input") || cell.starts_with("complex_") || cell.starts_with("varint_") || matches!(cell, "smart_ptr_deser" | "versioned_deser" | "simd_varint_batch" | "dict_deser" | "huff_tree_deser");
+                    if counted && f.is_empty() && *la == LenArg::True {
+                        for at in 0..12u8 {
+                            for w in [2u8, 4, 8] {
+                                for k in [0u8, 1] {
+                                    let faults = vec![Fault::Win { at: Pos::A(at), w, k, aligned: false }, Fault::Pad { kib: 70, byte: 0x41 }];
+                                    let c = Case { src: Src::Mut { content, len, seed, faults }, len: *la, aux: (at % 4) * 3 };
+                                    out.push(serde_json::json!({"cell": cell, "c": serde_json::to_value(&c).expect("case serialises")}));
+                                }
+                            }
+                        }
+                    }
                     let structured = cell.contains("deser") || cell.ends_with("_load") || cell.ends_with("_open");
                     if structured && matches!(f.as_slice(), [Fault::Nudge { .. }]) {
                         for aux in 1..=5u8 {
